@@ -21,6 +21,18 @@ CLAIMED = {
          "only as far as the C04/C07 contracts reach; DeferredSort/CachePersisted equivalence is not covered by a contract yet.", "6/C19"),
 }
 
+CLAIMED["C10"] = ("Unbounded proof that every read path is the same function of the state: segment.Get, segmentStack.get/getMerged/Get are proved equal to the "
+  "reference read (newest segment holding the key decides, Del hides older entries, Merge operands applied on top of older levels); Collection.Get is "
+  "proved against the read of the concatenated sections (what Get on a fresh Snapshot returns).",
+  "Known finding S7/S22 (collection.get :: ensures#agree, reproduced on the real code by witness/s7_direct_get_del_test.go): Collection.Get disagrees with "
+  "Snapshot.Get across sections; the code-shaped postcondition ensures#chain pins today's behaviour. Assumed: Segment.Get is a deterministic function of the "
+  "segment contents (results named by uninterpreted functions); the lower level is an abstract function llGet; deferred sorting abstracted (segments sorted); "
+  "iteration agreement and the NoCopyValue copy in Footer.Get are not under contract yet.", "6/C10")
+CLAIMED["C20"] = ("Unbounded proof of the safety half: segmentStack.Stats sums over the whole tree of stacks (map-range invariant over child stacks, recursion by "
+  "contract), and statsSegmentsLOCKED reports CurDirtySegments == 0 only if top, mid and base hold no segment in any collection of the tree.",
+  "Fixed finding S20 (fix: f464960). Not covered: that an empty dirty tree implies the lower level holds every batch (needs the persister region contracts, "
+  "C13; known gap S14: a batch that only deletes a child collection leaves no segment); the progress half (gauges eventually reach zero) is outside this family.", "6/C20")
+
 NA_REASONS = {
  "C17": "data-race freedom in the Go memory model is a whole-program property over every access (incl. runtime, mmap-go, ghistogram); no contract within reach of a "
         "sequential VC generator decides it (DESIGN.md section 7)",
